@@ -362,7 +362,8 @@ func c07Build(t *testing.T, in c07Input) (*c07Env, error) {
 			}
 			dbStage = cur
 		}
-		d, _, err := mk(1, dbStage, take(o.Wals))
+		ws := take(o.Wals)
+		d, _, err := mk(1, dbStage, ws)
 		if err != nil {
 			return nil, err
 		}
@@ -371,7 +372,9 @@ func c07Build(t *testing.T, in c07Input) (*c07Env, error) {
 	if len(in.Older) > 0 {
 		cur++
 	}
-	full, rels, err := mk(2, cur, take(in.FullWals))
+	fullStage := cur // read before take() advances it (operand order is unspecified in one call expression)
+	fullWals := take(in.FullWals)
+	full, rels, err := mk(2, fullStage, fullWals)
 	if err != nil {
 		return nil, err
 	}
@@ -388,7 +391,8 @@ func c07Build(t *testing.T, in c07Input) (*c07Env, error) {
 		if i > 0 && e.dirs[i-1].Term == 3 {
 			term = 3
 		}
-		d, rels, err := mk(term, -1, take(w))
+		ws := take(w)
+		d, rels, err := mk(term, -1, ws)
 		if err != nil {
 			return nil, err
 		}
@@ -1204,7 +1208,7 @@ func TestVerif_C07(t *testing.T) {
 	for _, in := range c07Corpus() {
 		c07Shape(t, w, in, second)
 	}
-	n := vN(2, 40)
+	n := vN(2, 24)
 	for i := 0; i < n; i++ {
 		if thorough {
 			c07Shape(t, w, c07RandomShape(rng, 3, 4, 3), second)
